@@ -216,6 +216,14 @@ def _worker(job):
             unit.run_split(ctx, split)
         except Unsupported as u:
             out["unsupported"] = "%s [%s split=%r]" % (u, unit_cls, split)
+        except AttributeError as ae:
+            # a function / class / constant a contract is anchored on no longer exists in /repo:
+            # undecided (exit 2), never a verdict and not a checker crash
+            msg = str(ae)
+            if "orquesta" in msg or "type object" in msg or "module" in msg:
+                out["unsupported"] = "contract anchor missing in /repo: %s [%s split=%r]" % (msg, unit_cls, split)
+            else:
+                raise
         out["records"] = compress_records(ctx.records)
         out["paths"] = eng.n_paths
         out["infeasible"] = eng.n_infeasible
